@@ -64,6 +64,7 @@ type refreshRec struct {
 	begin, end int
 	err        error
 	floor      map[string]uint32 // versions active on the service when the (possibly shared) round can have begun
+	atEnd      map[string]uint32 // versions in the store when the call had returned without error
 	logFrom    int
 	logTo      int
 }
@@ -137,9 +138,18 @@ func verOf(val string) uint32 {
 	return uint32(n)
 }
 
+// snapshot: the service's active versions of the names the store holds a value for right now. A
+// name the store does not know yet when a poll round begins is "covered from the next poll on".
 func (r *run) snapshot() map[string]uint32 {
 	out := map[string]uint32{}
+	var known map[string]setec.VerifSecret
+	if r.st != nil {
+		known = r.st.VerifDump()
+	}
 	for _, n := range r.allNames() {
+		if g, ok := known[n]; !ok || g.Nil {
+			continue
+		}
 		if v, _, ok := r.svc.Active(n); ok {
 			out[n] = v
 		}
@@ -173,15 +183,19 @@ func (r *run) allNames() []string {
 	return out
 }
 
+// minFloor combines two floors: a name is covered only if both cover it (a round that began before
+// the store knew a name does not cover that name), at the lower of the two versions. nil = no floor.
 func minFloor(a, b map[string]uint32) map[string]uint32 {
 	if a == nil {
 		return b
 	}
+	if b == nil {
+		return a
+	}
 	out := map[string]uint32{}
 	for k, v := range a {
-		out[k] = v
-		if w, ok := b[k]; ok && w < v {
-			out[k] = w
+		if w, ok := b[k]; ok {
+			out[k] = min(v, w)
 		}
 	}
 	return out
@@ -467,6 +481,18 @@ func (r *run) act(tn string, ctx context.Context, a string) {
 		}
 		r.mu.Unlock()
 		err := r.st.Refresh(ctx)
+		var d map[string]setec.VerifSecret
+		if err == nil {
+			// the store's contents once the poll has completed, taken before the completion is time-stamped:
+			// a read that begins after that stamp began after this dump
+			d = r.st.VerifDump()
+			rec.atEnd = map[string]uint32{}
+			for n, g := range d {
+				if !g.Nil {
+					rec.atEnd[n] = g.Version
+				}
+			}
+		}
 		r.mu.Lock()
 		r.clk++
 		rec.end, rec.err, rec.logTo = r.clk, err, r.svc.NReq()
@@ -483,7 +509,6 @@ func (r *run) act(tn string, ctx context.Context, a string) {
 		r.mu.Unlock()
 		if err == nil {
 			// every name known when the poll began and still known must be at or beyond the floor
-			d := r.st.VerifDump()
 			for n, fv := range rec.floor {
 				if g, ok := d[n]; ok && !g.Nil && g.Version < fv && !r.sc.backwards() {
 					r.fail("C11", "poll-did-not-install", "%s: Refresh returned without error but %q is at v%d; v%d was already active on the service when the poll round began", tn, n, g.Version, fv)
@@ -670,18 +695,16 @@ func (r *run) judge() {
 				if rf.err != nil || rf.end > rd.begin {
 					continue
 				}
-				// what did this poll round install for the name?
-				var inst uint32
-				for _, q := range r.svc.Log[rf.logFrom:min(rf.logTo, len(r.svc.Log))] {
-					if q.Name == rd.name && strings.HasPrefix(q.Result, "v") {
-						n, _ := strconv.Atoi(q.Result[1:])
-						if uint32(n) > inst {
-							inst = uint32(n)
-						}
-					}
+				// Once a poll has completed, a later read returns what the store held at that moment (which
+				// includes everything that poll installed) or newer, and at least what was active on the
+				// service when the poll's round began. Requests are not attributed to polls by the time
+				// window of the call: another round's request may fall into it without belonging to it.
+				inst := rf.atEnd[rd.name]
+				if f := rf.floor[rd.name]; f > inst {
+					inst = f
 				}
 				if inst > 0 && verOf(rd.val) < inst && !r.sc.backwards() {
-					r.fail("C12", "read-older-than-completed-poll", "%s read %q v%d after a poll that fetched v%d had completed", rd.thread, rd.name, verOf(rd.val), inst)
+					r.fail("C12", "read-older-than-completed-poll", "%s read %q v%d after a poll had completed with v%d installed (or active on the service when its round began)", rd.thread, rd.name, verOf(rd.val), inst)
 				}
 			}
 		}
